@@ -99,6 +99,14 @@ def handle (op : String) (args : List String) (impl : String) : Option (String Ã
         | .ok i => "1 ok " ++ i.show
         | _ => "0 err"
       (m, holds s impl)
+  | "uuidfile", [h] =>
+    -- the same text as a file through file.Inspect: a single UUID must be described as that UUID whatever else the bytes
+    -- could be read as (model = the UUID parser alone; the dispatch order is what this operation ties)
+    (bytesOfHexStr h).map fun s =>
+      let m := match Uuid.uuidValue s with
+        | .ok i => "1 ok " ++ i.show
+        | _ => "0 err"
+      (m, holds s impl)
   | "uuidtz", [_] =>
     -- the report of the real binary under several process time zones (the model has no zone parameter at all:
     -- every instant is formatted from seconds since the epoch, see Model/Uuid.lean)
